@@ -83,6 +83,32 @@ def check_L(part, job):
                       % (L, float(np.abs(gc.reshape(-1, 3) - want_gc).max()) if gc.reshape(-1, 3).shape == want_gc.shape else np.inf), case)
     except Exception as e:
         part.fail("grid-cartesian-raise", "grid_cartesian raised %r at L=%d" % (e, L), case)
+    # what the object hands out is the caller's to keep: converting the returned mesh in place (colatitude -> latitude in degrees,
+    # stretching z for a plot) leaves the object's own grid - and everything evaluated on it - where it was
+    theta, phi = np.array(theta, dtype=float), np.array(phi, dtype=float)
+    try:
+        part.tr()
+        g_th, g_ph = sht.grid
+        if isinstance(g_th, np.ndarray) and g_th.flags.writeable:
+            g_th *= -57.29577951308232
+            g_th += 90.0
+        if isinstance(g_ph, np.ndarray) and g_ph.flags.writeable:
+            g_ph -= 1.0
+        for a in sht.grid_cartesian:
+            if isinstance(a, np.ndarray) and a.flags.writeable:
+                a *= 3.0
+        th2, ph2 = sht.grid
+        gx2, gy2, gz2 = sht.grid_cartesian
+        dev = max(float(np.abs(np.asarray(th2) - theta).max()), float(np.abs(np.asarray(ph2) - phi).max()),
+                  float(np.abs(np.asarray(gz2, dtype=float).reshape(theta.shape) - np.cos(theta)).max()),
+                  float(np.abs(np.asarray(gx2, dtype=float).reshape(theta.shape) - np.sin(theta) * np.cos(phi)).max()))
+        vals = np.asarray(sht.compute_on_grid(lambda th, ph: np.cos(th) + 0.5 * np.sin(th) * np.cos(ph)))
+        dev = max(dev, float(np.abs(vals - (np.cos(theta) + 0.5 * np.sin(theta) * np.cos(phi))).max()))
+        if not (dev <= 1e-12):
+            part.fail("grid-aliased", "L=%d: after the caller converted the arrays returned by grid / grid_cartesian in place, the object's grid (or a function "
+                      "computed on it) has moved by %.3g: returned arrays share memory with the object's state" % (L, dev), case)
+    except Exception as e:
+        part.fail("grid-aliased-raise", "re-reading the grid after editing the returned arrays raised %r at L=%d" % (e, L), case)
     lmc = ylm.lm_complex(L)
     lmr = ylm.lm_real(L)
     sel = channels(L, Lb)
